@@ -1,22 +1,26 @@
 ---------------------------- MODULE PubSubTrace ----------------------------
 (* Trace specification: explains the ndjson traces recorded by drv-pubsub   *)
 (* from real Publisher / Subscriber objects by the actions of PubSub.tla.   *)
-(* Every record is one completed API call with its arguments and results;   *)
+(* Every record is one completed API call with its arguments and results    *)
+(* (or one sub-step of a send whose unable-to-deliver handler ran calls of  *)
+(* its own: send_begin, bp = handler entered, the nested calls, bp_ret =    *)
+(* handler returned, send_end; the deliveries in between are not observable *)
+(* and explained by silent Deliver steps);                                  *)
 (* `bad` lists the ids of held samples / loans whose bytes no longer equal  *)
-(* their canary (C02: must stay empty).  Choices the log does not fix       *)
-(* (nothing here: the served connection and the chunk are logged) and       *)
-(* The specification follows the documentation; the two known deviations of  *)
-(* the code are accepted as TAGGED alternatives (kd, see PubSub.tla          *)
-(* AllowKnown) and printed per explanation at the end of every run.          *)
-(* choices the property leaves open (which eligible connection is served,   *)
-(* which free chunk is handed out) are accepted whatever the code chose.    *)
+(* their canary or whose memory is no longer mapped (C02: must stay empty). *)
+(* The specification follows the documentation; the two known deviations of *)
+(* the code are accepted as TAGGED alternatives (kd, see PubSub.tla         *)
+(* AllowKnown) and printed per explanation at the end of every run.         *)
+(* Choices the property leaves open (which eligible connection is served,   *)
+(* which free chunk is handed out, which borrow-free expired connection is  *)
+(* sacrificed) are accepted whatever the code chose.                        *)
 EXTENDS PubSub, TraceIO
 
 VARIABLE l
 tvars == <<vars, l>>
 
 DummyQ == [maxpubs |-> 1, maxsubs |-> 1, bufmax |-> 1, hist |-> 0, borrow |-> 1, loan |-> 1,
-           overflow |-> FALSE, strategy |-> "discard"]
+           overflow |-> FALSE, strategy |-> "discard", expbuf |-> 64]
 
 TraceInit ==
     /\ l = 1
@@ -25,27 +29,34 @@ TraceInit ==
 
 QosOf(e) == [maxpubs |-> e.maxpubs, maxsubs |-> e.maxsubs, bufmax |-> e.bufmax, hist |-> e.hist,
              borrow |-> e.borrow, loan |-> e.loan, overflow |-> (e.overflow = 1),
-             strategy |-> e.strategy]
+             strategy |-> e.strategy, expbuf |-> e.expbuf]
 
 Clean(e) == e.bad = <<>>
 
 Op(e) ==
-    CASE e.a = "create_pub"  -> CreatePublisher(e.p, e.n) /\ out'.r = e.r
+    CASE e.a = "create_pub"  -> CreatePublisher(e.p, e.n, e.deg) /\ out'.r = e.r
       [] e.a = "drop_pub"    -> DropPublisher(e.p)
-      [] e.a = "create_sub"  -> CreateSubscriber(e.s, e.buf, e.req) /\ out'.r = e.r
+      [] e.a = "create_sub"  -> CreateSubscriber(e.s, e.buf, e.req, e.deg) /\ out'.r = e.r
       [] e.a = "drop_sub"    -> DropSubscriber(e.s)
       [] e.a = "abandon_sub" -> AbandonSubscriber(e.s)
       [] e.a = "loan"        -> Loan(e.p, e.c) /\ out'.r = e.r /\ out'.id = e.id
       [] e.a = "drop_loan"   -> DropLoan(e.p, e.id)
       [] e.a = "probe"       -> ProbeLoans(e.p, e.cs) /\ out'.cnt = e.cnt /\ out'.r = e.r
-      [] e.a = "update_pub"  -> UpdatePub(e.p) /\ e.r = "ok"
+      [] e.a = "update_pub"  -> UpdatePub(e.p) /\ out'.r = e.r
       [] e.a = "send"        -> Send(e.p, e.id) /\ out'.r = e.r /\ out'.n = e.n /\ out'.blk = e.blk
+      [] e.a = "send_begin"  -> SendBegin(e.p, e.id)
+      [] e.a = "bp"          -> BpCall(e.s) /\ out'.k = e.k
+      [] e.a = "bp_ret"      -> BpRet(e.act)
+      [] e.a = "send_end"    -> SendEnd /\ out'.p = e.p /\ out'.id = e.id /\ out'.r = e.r /\ out'.n = e.n
+                                /\ out'.blk = e.blk
       [] e.a = "recv"        -> /\ IF e.r = "some" THEN Receive(e.s, e.p) ELSE \E p \in PubIds : Receive(e.s, p)
                                 /\ out'.r = e.r /\ out'.p = e.p /\ out'.id = e.id
                                 /\ e.cok = 1                        \* byte-identical to what was written
       [] e.a = "drop_sample" -> DropSample(e.s, e.id)
-      [] e.a = "update_sub"  -> UpdateSub(e.s) /\ e.r = "ok"
-      [] e.a = "has"         -> HasSamples(e.s) /\ e.r = "ok" /\ out'.v = e.v
+      [] e.a = "update_sub"  -> UpdateSub(e.s) /\ out'.r = e.r
+      [] e.a = "has"         -> HasSamples(e.s) /\ out'.r = e.r /\ out'.v = e.v
+      [] e.a = "break_seg"   -> BreakSeg(e.p)
+      [] e.a = "occupy"      -> Occupy(e.p, e.s)
       [] OTHER -> FALSE
 
 Consume ==
@@ -54,13 +65,16 @@ Consume ==
     /\ LET e == Rec[l] IN
        CASE e.k = "reset" -> QosOK(QosOf(e)) /\ Reset(QosOf(e))
          [] e.k = "op"    -> Clean(e) /\ Op(e)
-         [] e.k = "end"   -> UNCHANGED vars /\ PrintT(<<"KD_PATH", l, kd>>)   \* one line per explanation of the run
+         [] e.k = "end"   -> Idle /\ UNCHANGED vars /\ PrintT(<<"KD_PATH", l, kd>>)   \* one line per explanation of the run
          [] OTHER -> FALSE
+
+\* deliveries of a split send that need no handler call leave no record (bounded: snd.pend shrinks)
+Silent == l <= NRec /\ (\E s \in SubIds : Deliver(s)) /\ UNCHANGED l
 
 \* overlapping calls of concurrent executions: alternatives, see TraceIO.tla
 AltJump == IsAltRec(l) /\ l' \in AltTargets(l) /\ UNCHANGED vars
 
-TraceNext == Consume \/ AltJump
+TraceNext == Consume \/ AltJump \/ Silent
 TraceSpec == TraceInit /\ [][TraceNext]_tvars
 
 Progress == TraceProgress(l)
